@@ -273,6 +273,14 @@ func readAll(rep reportFn, stream []byte, crc bool, rs ReadSched, errAt, maxZero
 		}
 		res.closeErr = r.Close()
 		lg.add("rclose %s", errStr(res.closeErr))
+		// the verdict is a fact about the stream: asking again (an explicit
+		// Close plus a deferred one) must not change it
+		for k := 2; k <= 3; k++ {
+			if again := r.Close(); (again == nil) != (res.closeErr == nil) {
+				rep("close-verdict", "changes-between-calls", "Reader.Close() returned %v the first time and %v on call %d for the same stream", res.closeErr, again, k)
+				break
+			}
+		}
 	})
 	res.panicked = !ok
 	res.srcFired = src.fired
